@@ -32,7 +32,64 @@ def is_literal(tok):
 
 
 OPS = ['delete', 'duplicate', 'swap', 'replace', 'litkind', 'indent', 'truncate', 'stray',
-       'insert', 'dupline', 'delline']
+       'insert', 'dupline', 'delline',
+       # edits that keep the text well formed but confuse its meaning (reach the semantic passes)
+       'rename', 'adddefault', 'wraptype', 'docref', 'setvalue']
+IDENT_RE = re.compile(r'[A-Za-z_][A-Za-z0-9_]*')
+KEYWORDS = {'struct', 'union', 'union_closed', 'route', 'alias', 'namespace', 'import', 'patch',
+            'annotation', 'annotation_type', 'extends', 'deprecated', 'by', 'attrs', 'example'}
+VALUES = LITERAL_KINDS + ['[null]', '[[1]]', '{"k": null}', '["a", 1]', '""', '0', '1e400', '-0.0',
+                          '99999999999999999999', '"2020-01-01"', 'default', 'other']
+DOCREFS = [':field:`%s`', ':field:`%s.%s`', ':type:`%s`', ':type:`%s.%s`', ':route:`%s`', ':route:`%s:2`',
+           ':route:`%s.%s`', ':val:`%s`', ':link:`%s`', ':link:`%s %s`', ':field:`%s.%s.%s`', ':type:`%s?`']
+
+
+def _semantic_edit(op, toks, solid, pos, pay):
+    idents = [k for k in solid if IDENT_RE.fullmatch(toks[k]) and toks[k] not in KEYWORDS]
+    names = sorted({toks[k] for k in idents}) or ['x']
+
+    def name(n):
+        return names[n % len(names)]
+    if op == 'rename':
+        if idents:
+            toks[idents[pos % len(idents)]] = name(pay)
+    elif op == 'adddefault':
+        # end of a line that starts with an identifier (a field, tag, alias or attribute line)
+        ends = [k for k in range(1, len(toks)) if toks[k].startswith('\n') and toks[k - 1].strip()]
+        if ends:
+            k = ends[pos % len(ends)]
+            v = VALUES[pay % len(VALUES)] if pay % 3 else name(pay // 3)
+            toks.insert(k, ' = ' + v)
+    elif op == 'wraptype':
+        caps = [k for k in idents if toks[k][0].isupper()]
+        if caps:
+            k = caps[pos % len(caps)]
+            t = toks[k]
+            toks[k] = ['List(%s)', 'Map(String, %s)', '%s?', '%s(1)', 'List(%s?)', 'Map(%s, String)',
+                       'List(List(%s), max_items=1)', '%s()', 'List(%s, min_items=-1)',
+                       'Map(String, %s)?'][pay % 10] % t
+    elif op == 'docref':
+        strs = [k for k in solid if toks[k].startswith('"') and len(toks[k]) >= 2]
+        ref = DOCREFS[pay % len(DOCREFS)]
+        ref = ref % tuple(name(pay // 7 + j * 13 + pos) for j in range(ref.count('%s')))
+        if strs:
+            k = strs[pos % len(strs)]
+            toks[k] = toks[k][:-1] + ' ' + ref + '"'
+        else:
+            nls = [k for k, t in enumerate(toks) if t.startswith('\n')]
+            if nls:
+                k = nls[pos % len(nls)]
+                toks.insert(k + 1, '"%s"%s' % (ref, toks[k]))
+    elif op == 'setvalue':
+        eqs = [k for k in solid if toks[k] == '=']
+        if eqs:
+            k = eqs[pos % len(eqs)]
+            j = k + 1
+            while j < len(toks) and not toks[j].startswith('\n'):
+                j += 1
+            v = VALUES[pay % len(VALUES)] if pay % 4 else name(pay // 4)
+            toks[k + 1:j] = [' ' + v]
+    return toks
 
 
 def apply_edit(text, edit):
@@ -70,6 +127,8 @@ def apply_edit(text, edit):
         toks = toks[:i + (pay % 2)]
     elif op == 'stray':
         toks.insert(i, STRAY[pay % len(STRAY)])
+    elif op in ('rename', 'adddefault', 'wraptype', 'docref', 'setvalue'):
+        toks = _semantic_edit(op, toks, solid, pos, pay)
     elif op in ('dupline', 'delline'):
         lines = ''.join(toks).split('\n')
         k = pos % len(lines)
